@@ -45,6 +45,9 @@ def task_species():
             sub = Substance.from_formula(f)
             if (sub.latex_name, sub.unicode_name, sub.html_name) != (formula_to_latex(f), formula_to_unicode(f), formula_to_html(f)):
                 bad.append("%s names" % f)
+    for f, exp in (("{(H2O)2OH}12", "\\{(H_{2}O)_{2}OH\\}_{12}"), ("Fe{CN}6-3", "Fe\\{CN\\}_{6}^{3-}"), ("{Li@C60}+", "\\{Li@C_{60}\\}^{+}")):
+        if formula_to_latex(f) != exp:
+            bad.append("latex braces %s -> %s" % (f, formula_to_latex(f)))
     res = dict(engine="X", functions=[env.describe(Species.from_formula), env.describe(Substance.from_formula)], obligations=1,
                discharged=0 if bad else 1, violations=[], twin="n/a", bounds="6 cores x 5 suffixes (finite table, concrete)",
                sample={"formula": "alpha-FeOOH(s)", "phase_idx": 1})
@@ -60,7 +63,7 @@ print(bad); sys.exit(1 if bad else 0)
 
 def tasks(tier, seed):
     names = ["count_simple", "count_group_suffix", "count_nested", "count_twice_charge", "decimal_fraction", "decimal_integer_part", "charge_pos", "charge_neg_suffix",
-             "charge_bracket", "charge_after_counts", "hydrate_one", "hydrate_two_first", "hydrate_two_second", "prefix", "whole_string", "reaction_rendering"]
+             "charge_bracket", "charge_after_counts", "hydrate_one", "hydrate_two_first", "hydrate_two_second", "prefix", "whole_string", "reaction_rendering", "primes_caged", "braces", "radical_with_count_and_charge"]
     ts = [dict(id="C13.%s" % n, fn="task_cx", kwargs=dict(tier=tier, only="_h_" + n), timeout=5000) for n in names]
     ts.append(dict(id="C13.species_phase", fn="task_species", kwargs={}, timeout=120))
     return ts
